@@ -846,6 +846,30 @@ func genNode(t *rapid.T, depth int, literal bool) C08Node {
 
 var cmdAlphabet = []string{"a", "b", " ", "\t", "\"", "\\", "é", "ab", "  "}
 
+// separators a command line may contain between words: blanks, the other ASCII white space, Unicode
+// white space (what strings.TrimSpace / unicode.IsSpace accept), and bytes that merely look like them
+var cmdSeps = []string{" ", " ", " ", " ", "  ", "\t", "\n", "\r", "\v", "\f", " \t", "\u00a0", "\u0085", "\u2003", "\u3000", "\u2028", "\u1680", "\ufeff", "\x00", "\xc2", "\xa0"}
+var cmdWords = []string{"a", "b", "ab", "ba", "é", "aa", "a", "b", "\"q s\"", "\"", "1", "-5", "x", "\\", "a\"", "\xff", "ab ba"}
+
+// genCmdLine: words that can match the graph's literals, joined by generated separators (a line of
+// random characters seldom gets past the first node).
+func genCmdLine(t *rapid.T) string {
+	line := ""
+	if rapid.IntRange(0, 5).Draw(t, "leadsep") == 2 {
+		line = rapid.SampledFrom(cmdSeps).Draw(t, "lead")
+	}
+	for j, m := 0, rapid.IntRange(0, 5).Draw(t, "nwords"); j < m; j++ {
+		if j > 0 {
+			line += rapid.SampledFrom(cmdSeps).Draw(t, "sep")
+		}
+		line += rapid.SampledFrom(cmdWords).Draw(t, "word")
+	}
+	if rapid.IntRange(0, 5).Draw(t, "trailsep") == 2 {
+		line += rapid.SampledFrom(cmdSeps).Draw(t, "trail")
+	}
+	return line
+}
+
 var c08Cmd = pbt.Register(pbt.Prop[C08Cmd]{
 	Name: "C08Command",
 	Gen: func(t *rapid.T) C08Cmd {
@@ -855,8 +879,12 @@ var c08Cmd = pbt.Register(pbt.Prop[C08Cmd]{
 		}
 		for i, k := 0, rapid.IntRange(1, 12).Draw(t, "nlines"); i < k; i++ {
 			line := ""
-			for j, m := 0, rapid.IntRange(0, 12).Draw(t, "linelen"); j < m; j++ {
-				line += rapid.SampledFrom(cmdAlphabet).Draw(t, "ch")
+			if rapid.Bool().Draw(t, "structured") {
+				line = genCmdLine(t)
+			} else {
+				for j, m := 0, rapid.IntRange(0, 12).Draw(t, "linelen"); j < m; j++ {
+					line += rapid.SampledFrom(cmdAlphabet).Draw(t, "ch")
+				}
 			}
 			c.Lines = append(c.Lines, line)
 		}
